@@ -383,7 +383,7 @@ Proof.
     all: intros c' Hc'; destruct (Ht c' Hc') as [G|[G|[G|G]]]; rewrite ?E in G;
       try (now left); try (right; left; now right); try (right; now left);
       try (right; right; now right); try discriminate.
-    injection G as <-. right; left. now left.
+    all: injection G as <-; right; left; now left.
   - (* AReaderStop *)
     break_step H; split; cbn [serve pend taken donec dropped reader queue callers];
       unfold reader_holds in *; cbn [reader]; try assumption;
